@@ -83,7 +83,7 @@ def scheme_rules(ctx):
 
 def C01(ctx):
     ctx.only = ("K1.", "K4.reclaim-after-unlink", "HP.protocol", "HP.active-gather", "HP.delete-licensed", "HP.validate-after-protect",
-                "HE.protocol", "HE.active-gather", "HE.delete-licensed", "HE.era-after-load", "HE.exception-safety", "HE.retire", "HE.shared-slot",
+                "HE.protocol", "HE.active-gather", "HE.delete-licensed", "HE.era-after-load", "HE.era-stable", "HE.exception-safety", "HE.retire", "HE.shared-slot",
                 "EBR.protocol", "EBR.orphans", "EBR.constants", "EBR.epoch-slots", "EBR.activity", "EBR.scan-cursor", "QSBR.protocol", "QSBR.constants", "QSBR.activity",
                 "STAMP.protocol", "STAMP.help-pending-push", "STAMP.delete-licensed", "LFRC.", "K3.", "K13.")
     k1_rules(ctx, "C01")
@@ -287,7 +287,7 @@ def C15(ctx):
     markedptr.rules(ctx)
     typestate.rules(ctx)
     typestate.emptiness_predicates(ctx)
-    ctx.only = ("K1.", "K7.", "K3.", "K13.", "HE.shared-slot")
+    ctx.only = ("K1.", "K7.", "K3.", "K13.", "HE.shared-slot", "HE.era-stable")
     schemes.hazard_eras_rules(ctx)
     return ("Decides: marked_ptr round trip bit by bit for every mark width 1..32 and three upper/lower splits (abstract interpretation of the -O1 IR), "
             "concurrent_ptr order pass-through (frozen as param:order in the contract table); guard_ptr typestate for all six schemes and all special members, "
